@@ -78,7 +78,7 @@ func drawVotePatterns(r *hx.Rng, seed uint64) VotePatternParams {
 		p.Types = append(p.Types, r.Intn(len(propTypes)))
 	}
 	for b := 0; b < 4; b++ {
-		p.TailDts = append(p.TailDts, pickI(r, 1, 5, 301, 4000))
+		p.TailDts = append(p.TailDts, pickI(r, 1, 5, 299, 300, 301, 4000))
 	}
 	return p
 }
